@@ -408,6 +408,17 @@ fn run_case(case: &str, wasm: &[u8], kind_imp: bool, pick: u64, seed: u64, stats
             }
         }
     }
+    // the start section stays with the function it named: after replacing an exported function, the
+    // retargeted export names the new function, the start section (if it named the original) must not
+    if !kind_imp && a.start == Some(target) {
+        if let Some(pos) = a.exports.iter().position(|e| e.kind == Space::Func && e.index == target) {
+            if let Some(e2) = b.exports.get(pos) {
+                if b.start == Some(e2.index) {
+                    fails.push(("C18:start-retargeted".into(), "the start section named the replaced function and now names the replacement: only the export may be retargeted".into()));
+                }
+            }
+        }
+    }
     let want_funcs = a.count(Space::Func) + if kind_imp { 0 } else { 1 };
     if b.count(Space::Func) != want_funcs {
         fails.push(("C18:function-count".into(), format!("{} functions after the edit, expected {}", b.count(Space::Func), want_funcs)));
